@@ -27,6 +27,7 @@ type PropSpec struct {
 }
 
 type BoundedSpec struct {
+	Race bool `json:"race,omitempty"` // run under the Go race detector (sampled schedules, not exhaustive)
 	Name string `json:"name"`
 	Pkg  string `json:"pkg"`  // package directory under the repository
 	File string `json:"file"` // harness source under /verif
@@ -59,7 +60,12 @@ func runBounded(repo, verif string, b BoundedSpec, tier, wd string) *BoundedResu
 	os.WriteFile(ovFile, ovData, 0o644)
 	ctx, cancel := context.WithTimeout(context.Background(), 20*time.Minute)
 	defer cancel()
-	cmd := exec.CommandContext(ctx, "go", "test", "-overlay", ovFile, "-vet=off", "-timeout", "15m", "-count=1", "-run", "^"+b.Run+"$", "-v", ".")
+	goArgs := []string{"test", "-overlay", ovFile, "-vet=off", "-timeout", "15m", "-count=1", "-run", "^" + b.Run + "$", "-v"}
+	if b.Race {
+		goArgs = append(goArgs, "-race")
+	}
+	goArgs = append(goArgs, ".")
+	cmd := exec.CommandContext(ctx, "go", goArgs...)
 	cmd.Dir = filepath.Join(repo, b.Pkg)
 	cmd.Env = append(os.Environ(), "GOFLAGS=-mod=mod", "GOPROXY=off", "GOSUMDB=off", "GOTOOLCHAIN=local", "VERIF_TIER="+tier)
 	var out bytes.Buffer
@@ -80,6 +86,9 @@ func runBounded(repo, verif string, b BoundedSpec, tier, wd string) *BoundedResu
 				r.Bound = strings.TrimSuffix(l[k+7:], "\"")
 			}
 		}
+	}
+	if strings.Contains(out.String(), "WARNING: DATA RACE") {
+		r.FailLines = append(r.FailLines, "GOVC-FAIL the Go race detector reported a data race: "+firstLines(out.String()[strings.Index(out.String(), "WARNING: DATA RACE"):], 14))
 	}
 	if r.Failures < len(r.FailLines) {
 		r.Failures = len(r.FailLines)
